@@ -972,6 +972,19 @@ def _cls_epa_degenerate(fname, rel, s1, s2, det):
         (degenerate_placement(s1, s2) or lattice_scene(s1, s2))
 
 
+def _cls_epa_small(fname, rel, s1, s2, det):
+    """epa on polytopes with a feature size below 0.1 length units (domain floor is 1e-2): the absolute thresholds of
+    epa.py (winding bias 1e-6 in fix_ccw_normal_direction, epsilon 1e-8 in triangle_faces_point / edge matching) are
+    not scaled with the shapes; the same scene scaled up by 3 or more is answered consistently"""
+    if fname != "epa" or det["what"] != "d" or _is_curved(s1) or _is_curved(s2):
+        return False
+    s = 1.0
+    if rel == "scale":
+        s = min(1.0, float((det.get("motion") or {}).get("s", 1.0)))      # the smaller of the two scenes
+    sizes = [x for x in shape_sizes(s1) + shape_sizes(s2) if x > 0]
+    return bool(sizes) and s * min(sizes) < 0.1
+
+
 def _cls_nesterov_momentum(fname, rel, s1, s2, det):
     """gjk_nesterov_accelerated(use_nesterov_acceleration=True), distance output"""
     return fname == "gjk_nesterov_accelerated_distance(nesterov)" and det["what"] == "d"
@@ -1028,6 +1041,7 @@ _FINDING_CLASSES = [
     ("F-c12-mpr-depth-path", _cls_mpr_depth),
     ("F-c12-epa-curved", _cls_epa_curved),
     ("F-c12-epa-degenerate", _cls_epa_degenerate),
+    ("F-c12-epa-small-polytopes", _cls_epa_small),
     ("F-c12-nesterov-mixed-inflation", _cls_nesterov_mixed),
     ("F-c12-nesterov-momentum", _cls_nesterov_momentum),
     ("F-c12-nesterov-degenerate", _cls_nesterov_degenerate),
